@@ -585,6 +585,64 @@ def mdarrayReadStride {α : Type} (t : IdxT) (m : StrideMap) (ctr : List α) (id
   let k := sz o
   if k < 0 then .error .oob else rd ctr k.toNat
 
+/-! ### default-constructed mappings -/
+
+/-- `layout_left::mapping()` / `layout_right::mapping()` (`= default`): the member `_extents{}` is a value-initialised
+    extents object -/
+def contigDefault (p : Pat) : Ext := Ext.default p
+
+/-- the loop of `layout_stride::mapping::default_strides()` (fix 36bdc9a):
+    `for (r = rank; r > 0; --r) { result[r - 1] = product; product = static_cast<index_type>(product * ext.extent(r - 1)); }`
+    — the list holds the values of `r - 1` (`rank-1 … 0`) -/
+def defaultStridesLoop (t : IdxT) (e : Ext) : List Nat → Int → List Int → Except Err (List Int)
+  | [], _, acc => .ok acc
+  | k :: ks, product, acc => do
+    let acc' ← wr acc k product
+    let x ← e.extent t k
+    defaultStridesLoop t e ks (t.wrap (product * x)) acc'
+
+/-- `layout_stride::mapping()`: `_extents{}`, `_strides{default_strides()}` ([mdspan.layout.stride.cons]/1: the strides of
+    `layout_right::mapping<extents_type>()`) -/
+def StrideMap.default (t : IdxT) (p : Pat) : Except Err StrideMap := do
+  let e := Ext.default p
+  let s ← defaultStridesLoop t e (List.range p.length).reverse 1 (List.replicate p.length 0)
+  pure { ext := e, strides := s }
+
+/-! ### mdarray as an object: copy / move construction, assignment, swap
+
+`mdarray` has two members, `_map` (the mapping: for layout_left / layout_right its extents object, whose `_extents` array of
+the dynamic extents is run-time state; for layout_stride the extents object and the `_strides` array, which is run-time
+state also over fully static extents) and `_ctr` (the container). -/
+
+structure MdArr (M : Type) where
+  map : M
+  ctr : List Int
+  deriving Repr
+
+/-- `mdarray(mdarray const&) = default`: member-wise copy -/
+def MdArr.copy {M : Type} (a : MdArr M) : MdArr M := { map := a.map, ctr := a.ctr }
+
+/-- `mdarray(mdarray&&) = default`: the new object has the mapping and the container of the argument (the moved-from state
+    of the argument is not described) -/
+def MdArr.move {M : Type} (a : MdArr M) : MdArr M := { map := a.map, ctr := a.ctr }
+
+/-- `operator=(mdarray const&) = default` / `operator=(mdarray&&) = default`: both members are assigned -/
+def MdArr.assign {M : Type} (_dst src : MdArr M) : MdArr M := { map := src.map, ctr := src.ctr }
+
+/-- `friend swap(mdarray& lhs, mdarray& rhs)`: `swap(lhs._map, rhs._map); swap(lhs._ctr, rhs._ctr);` — returns the new
+    (lhs, rhs) -/
+def MdArr.swap {M : Type} (lhs rhs : MdArr M) : MdArr M × MdArr M :=
+  let (lm, rm) := (rhs.map, lhs.map)
+  let (lc, rc) := (rhs.ctr, lhs.ctr)
+  ({ map := lm, ctr := lc }, { map := rm, ctr := rc })
+
+/-- `mdarray::operator()` of an mdarray object over a layout_left / layout_right mapping -/
+def MdArr.read (l : Lay) (t : IdxT) (a : MdArr Ext) (idx : List Int) : Except Err Int := mdarrayRead l t a.map a.ctr idx
+
+/-- `mdarray::operator()` of an mdarray object over a layout_stride mapping -/
+def MdArr.readStride (t : IdxT) (a : MdArr StrideMap) (idx : List Int) : Except Err Int :=
+  mdarrayReadStride t a.map a.ctr idx
+
 /-! ## span -/
 
 /-- a `span<T, Extent>` over the base range: offset of `data()` from the base, stored size, static extent.
